@@ -183,6 +183,9 @@ pub fn err_name(code: i64, label: &str) -> String {
     if label.starts_with("build") {
         return "build".into();
     }
+    if code == -4000 {
+        return label.to_string();
+    }
     label.to_string()
 }
 
@@ -1433,12 +1436,25 @@ impl Exec {
                     res = Err((-3000, e, 0));
                 }
             }
+            "curve" | "integ" => {}
             "tx" => {
                 let list = a.get("ixs").and_then(|x| x.as_array()).cloned().unwrap_or_default();
                 res = self.run_tx(&list);
             }
             _ => {
                 res = self.run_tx(&[a.clone()]);
+            }
+        }
+        let mut out_val = json!({});
+        if op == "curve" || op == "integ" {
+            let r = std::panic::catch_unwind(std::panic::AssertUnwindSafe(|| crate::pure::call(a)));
+            match r {
+                Ok(Ok(v)) => {
+                    out_val = v;
+                    res = Ok(());
+                }
+                Ok(Err(name)) => res = Err((-4000, name, 0)),
+                Err(_) => res = Err((-1000, "panic:pure".into(), 0)),
             }
         }
         let post = proj::project(&self.env);
@@ -1451,7 +1467,7 @@ impl Exec {
         };
         let err = if r == "ok" { "".to_string() } else { err_name(code, &label) };
         let amt = a.get("amount").and_then(parse_i128).unwrap_or(0);
-        json!({"i": self.n, "ev": op, "a": a, "amt": big_i(amt), "res": r, "code": code, "err": err, "label": label, "failed_ix": fidx,
+        json!({"i": self.n, "ev": op, "a": a, "amt": big_i(amt), "out": out_val, "res": r, "code": code, "err": err, "label": label, "failed_ix": fidx,
                "ts": big_i(self.env.world.clock.unix_timestamp as i128), "chg": chg})
     }
 
